@@ -131,6 +131,16 @@ def replay_object(chk, case, rng, grad_budget):
         back = np.asarray(obj2.to_var()).ravel()
         if len(back) != nv or not np.array_equal(back, vlab):
             bad("var_roundtrip", "to_var(generate_from_var(v)) != v")
+        # the parametrisation named in the call wins over the template's: a template built with the OTHER flag, asked for
+        # this flag explicitly, gives the same object as a template of this flag
+        try:
+            other = build(T, d, m, not para, label)
+            obj5 = other.generate_from_var(vlab.copy(), on_para_eq_constraint=para)
+            if obj5.on_para_eq_constraint != para or not np.array_equal(np.asarray(obj5.to_stacked_vector()).ravel(), np.asarray(obj2.to_stacked_vector()).ravel()) \
+                    or not np.array_equal(np.asarray(obj5.to_var()).ravel(), vlab):
+                bad("generate_from_var:explicit_flag", "generate_from_var(v, on_para_eq_constraint=%s) on a template built with %s does not give the object of the named parametrisation" % (para, not para))
+        except Exception as e:
+            bad("generate_from_var:explicit_flag:exception", "generate_from_var(v, on_para_eq_constraint=%s) on a template built with %s raised %r" % (para, not para, e))
         # the object regenerated from to_var() of obj reproduces obj on non-implied cells, and for
         # an object that satisfies the equality constraint reproduces it completely
         obj3 = obj.generate_from_var(np.asarray(obj.to_var()))
